@@ -130,7 +130,9 @@ func Plan(tier string, seed uint64) []Cfg {
 		c := Cfg{Prop: "C18", QSeed: r.Uint64()}
 		nin := 1 + r.Intn(3)
 		for k := 0; k < nin; k++ {
-			sz := []int{1121, 1200, 1500, 2500, 4096}[r.Intn(5)]
+			// powers of two and sizes just around them included: table and
+			// plan sizes are chosen by rounding the length up
+			sz := []int{1121, 1200, 1500, 2048, 2500, 3000, 4096, 4097, 5000, 8192}[r.Intn(10)]
 			if r.Intn(150) == 0 {
 				sz = 125000 // a 10^6-bit sample: size-dependent fast paths only show here
 			}
@@ -193,6 +195,17 @@ func cfgKey(c *Cfg) uint64 {
 	h := fnv.New64a()
 	h.Write(b)
 	return h.Sum64()
+}
+
+// TestRefChild computes one solitary reference result in a fresh process.
+func TestRefChild(t *testing.T) {
+	req := os.Getenv("VERIF_REF_REQ")
+	if req == "" {
+		t.Skip("not a reference child")
+	}
+	if err := RefChildMain(req); err != nil {
+		t.Fatal(err)
+	}
 }
 
 func TestBatch(t *testing.T) {
